@@ -207,7 +207,7 @@ class FileStore(BaseEngine):
             tracks.append(tr)
         plan = {'prop': prop, 'cfg': cfg, 'type': ftype, 'tpb': pick(rng, (1, 96, 480, 960, 32767)),
                 'tracks': tracks, 'via': pick(rng, ('file', 'filename')),
-                'saves': pick(rng, (1, 1, 1, 2, 3)),
+                'saves': pick(rng, (1, 1, 1, 2, 3)), 'merge_edit': rng.random() < 0.15,
                 'prelude': [pick(rng, ('utf-8', 'utf-16', 'cp1252', 'latin1')) for _ in range(rng.randint(1, 2))]
                 if rng.random() < 0.2 else []}
         if cfg == 'alt_image':
@@ -435,6 +435,18 @@ class FileStore(BaseEngine):
                 pass
         mf = self._mk(plan)
         model = [normalise([m.copy() for m in tr]) for tr in mf.tracks]
+        if plan.get('merge_edit'):
+            # the user took a merged copy of the tracks earlier and edited that copy in place
+            try:
+                from mido import merge_tracks
+                mt = merge_tracks(mf.tracks)
+                for m in mt:
+                    m.time = m.time + 480
+                if len(mt):
+                    mt[-1].time = 480
+                stats['fault:merged_copy_edited_earlier'] += 1
+            except Exception:
+                pass
         try:
             for _ in range(max(1, plan.get('saves', 1))):
                 image = self._save(mf, plan['via'], disk)
@@ -660,6 +672,8 @@ class FileStore(BaseEngine):
             yield replace_at(plan, ('via',), 'file')
         if plan.get('prelude'):
             yield replace_at(plan, ('prelude',), [])
+        if plan.get('merge_edit'):
+            yield replace_at(plan, ('merge_edit',), False)
         if plan.get('bystander'):
             c = dict(plan)
             c.pop('bystander')
